@@ -51,8 +51,8 @@ CfgsWide  == {cf \in CfgsFn : cf.api = "check" \/ cf.api = "digest"}
 CfgsAll   == MkCfgs({"dict", "fdict", "fpw"}, {"GET", "POST"})
 QopQfsAll == {"none", "auth", "authint", "bogus"} \X {"both", "nocnonce", "nonc", "neither"}
 QopQfsFew == {<<"none", "neither">>, <<"auth", "both">>, <<"auth", "nonc">>, <<"bogus", "both">>}
-QopQfsQuick == {<<"none", "neither">>, <<"none", "both">>, <<"auth", "both">>, <<"auth", "nonc">>,
-                <<"authint", "both">>, <<"bogus", "both">>}
+QopQfsQuick == {<<"none", "neither">>, <<"none", "both">>, <<"auth", "both">>, <<"auth", "nonc">>, <<"bogus", "both">>}
+QopQfsMid == QopQfsQuick \cup {<<"authint", "both">>, <<"auth", "neither">>, <<"none", "nocnonce">>}
 
 Pinned   == [err |-> FALSE, nopw |-> FALSE, enc |-> FALSE]
 AllFixed == [err |-> TRUE,  nopw |-> TRUE,  enc |-> TRUE]
